@@ -111,6 +111,14 @@ def run(chk):
             for f in files:                                # truncation at spread offsets
                 for j in range(1, 17):
                     states.append([(f, 'truncated', max(1, sizes[f] * j // 17))])
+        # truncation inside the pickle header / first frame: the loader fails with other exception types there (EOFError, ...)
+        short = list(range(1, 17)) if chk.thorough else [1, 2, 3, 4, 11]
+        for f in (files if chk.thorough else rng.sample(files, min(4, len(files)))):
+            for off in short:
+                if off < sizes[f]:
+                    states.append([(f, 'truncated', off)])
+        for off in (1, 2, 3):
+            states.append([(f, 'truncated', off) for f in files if off < sizes[f]])
         fails, bad = [], []
         with concurrent.futures.ThreadPoolExecutor(max_workers=14) as ex:
             results = list(ex.map(run_state, [(pristine, st, scratch_root) for st in states]))
